@@ -1327,6 +1327,8 @@ def collapse_expected(spec, v):
         raise Skip("list-tolerance")
     n = len(win[0])
     F = Fraction
+    # small dyadic values: every difference the code forms is exactly representable
+    exact_regime = all(abs(val) < 2.0 ** 20 and F(val).denominator <= 2 ** 20 for r in win for val in r)
 
     def le(x):            # exact `x <= tol`; the code's float differences are rounded: no verdict within 1e-12 of a tie
         if tol == INF:
@@ -1335,6 +1337,10 @@ def collapse_expected(spec, v):
             return False
         t = F(tol)
         if x != t and abs(x - t) <= F(1, 10 ** 12) * max(abs(x), abs(t)):
+            raise Skip("rounding")
+        if x == t and not exact_regime:
+            # an EXACT tie with the tolerance: the code's float differences are rounded and can land one ulp above it
+            # (seen: ptp = 3.0000000000000018 for an exact 3); a verdict only where the float arithmetic is exact too
             raise Skip("rounding")
         return x <= t
     if k == "cat":
